@@ -33,6 +33,11 @@ def _is_const(b):
 def _norm(b, memo):
     op, pl, kids = b
     ks = tuple(norm(c, memo) for c in kids)
+    return norm_node(op, pl, ks)
+
+
+def norm_node(op, pl, ks):
+    """Constructor normalisation of one node over normalised children."""
     if op == 'not' and ks[0][0] == 'not':
         return ks[0][2][0]
     if op in ('and', 'or', 'plus', 'times') and len(ks) == 1:
